@@ -7,8 +7,12 @@ package lib
 // only ever uses time.Since(registrationTime)).
 
 import (
+	"sync/atomic"
+	"sync"
+	"context"
 	"fmt"
 	"net"
+	"runtime"
 	"sort"
 	"strings"
 	"testing"
@@ -30,6 +34,7 @@ type c08Op struct {
 	Ovr    int    `json:"ovr,omitempty"` // 0 = derived phantom, k>0 = registrar-overridden phantom #k
 	DeltaS int64  `json:"delta_s,omitempty"`
 	Tunnel bool   `json:"tunnel,omitempty"` // connect: the handler also relays (Proxy), as it does for every matched connection
+	Busy   bool   `json:"busy,omitempty"`   // connect: another connection handler holds the registry's read lock at the moment of activation (the activation has to wait for it, not be skipped)
 	Dial   string `json:"dial,omitempty"`   // ingest of a connecting-transport registration (TT 3): outcome of the station's dial to the client: "fail" | "timeout" | "ok" (connected; the session ends at once)
 	Mid    string `json:"mid,omitempty"`    // sweep: an operation of this kind (connect | ingest, with this op's Secret/TT/V6/Ovr/Tunnel) arrives between the sweep's collection and removal phases
 }
@@ -44,8 +49,8 @@ func (o c08Op) String() string {
 		}
 		return "sweep"
 	}
-	if o.Tunnel {
-		return fmt.Sprintf("%s+relay(s%d,t%d,v6=%v,o%d)", o.Kind, o.Secret, o.TT, o.V6, o.Ovr)
+	if o.Tunnel || o.Busy {
+		return fmt.Sprintf("%s(s%d,t%d,v6=%v,o%d,relay=%v,lock-read-held=%v)", o.Kind, o.Secret, o.TT, o.V6, o.Ovr, o.Tunnel, o.Busy)
 	}
 	if o.TT == 3 {
 		return fmt.Sprintf("%s(s%d,dtls,v6=%v,o%d,station's dial: %s)", o.Kind, o.Secret, o.V6, o.Ovr, o.Dial)
@@ -218,7 +223,38 @@ func c08Run(e *vEnv, c c08Case) (key, msg string, stats map[string]bool) {
 		if ok {
 			// what the connection handler does with a matched registration: activate, then relay
 			fr := found.(*DecoyRegistration)
-			e.rm.MarkActive(fr)
+			if o.Busy {
+				// A reader (e.g. another handler inside its lookup) holds the lock while this
+				// handler activates. Hold it until the activation is seen waiting for it (a
+				// pending writer makes TryRLock fail) or has returned, then release.
+				r.m.RLock()
+				done := make(chan struct{})
+				go func() { e.rm.MarkActive(fr); close(done) }()
+				deadline := time.Now().Add(2 * time.Second)
+			wait:
+				for time.Now().Before(deadline) {
+					select {
+					case <-done:
+						break wait
+					default:
+					}
+					if r.m.TryRLock() {
+						r.m.RUnlock()
+						runtime.Gosched()
+						continue
+					}
+					break // a writer is waiting
+				}
+				r.m.RUnlock()
+				select {
+				case <-done:
+				case <-time.After(30 * time.Second):
+					return "harness", fmt.Sprintf("step %d: activation did not return within 30 s after the reader released the lock", step)
+				}
+				stats["connect-while-lock-read-held"] = true
+			} else {
+				e.rm.MarkActive(fr)
+			}
 			if o.Tunnel {
 				// the relay itself: the covert refuses the connection, the tunnel ends at once
 				fr.Covert = "127.0.0.1:1"
@@ -481,6 +517,7 @@ func c08Gen(rt *rapid.T) c08Case {
 		default:
 			if k == "connect" {
 				o.Tunnel = rapid.Bool().Draw(rt, "tunnel")
+				o.Busy = rapid.IntRange(0, 3).Draw(rt, "busy") == 0
 			}
 			o.Secret = rapid.IntRange(0, 3).Draw(rt, "secret")
 			if rapid.IntRange(0, 2).Draw(rt, "widesecret") == 0 {
@@ -509,7 +546,7 @@ func c08Gen(rt *rapid.T) c08Case {
 func TestVerif_C08_random(t *testing.T) {
 	rec := vh.NewRec("C08", "random", "rapid-generated histories of 1-120 operations (track, validate, ingest - incl. connecting-transport registrations whose dial to the client fails, times out or succeeds -, connect with or without the relay step, advance time, sweep, sweep during which a connect or ingest arrives between collection and removal) over 4 secrets x {min,prefix,obfs4} x {v4,v6} x {derived, overridden phantom}; non-trivial as in the exhaustive sub-check; distinct by history")
 	defer rec.Flush()
-	rec.Require("sweep-removes-some-keeps-some", "one-secret-several-transports", "connect", "connect-with-tunnel", "operation-during-sweep", "connecting:fail", "connecting:ok")
+	rec.Require("sweep-removes-some-keeps-some", "one-secret-several-transports", "connect", "connect-with-tunnel", "operation-during-sweep", "connecting:fail", "connecting:ok", "connect-while-lock-read-held")
 	e := vNewEnv(t, nil, "")
 	c08Connecting(e)
 	if p := vh.ReplayFile(); p != "" {
@@ -609,4 +646,189 @@ func TestVerif_C08_bulk(t *testing.T) {
 			}
 		}
 	}
+}
+
+
+// Expiry under load: the sweeper must do its work also while the ingest pipeline is saturated (all
+// workers busy, hand-off buffer full, registrations being dropped) - that is exactly when tracked
+// state must stay bounded.
+type c08LoadCase struct {
+	Workers int   `json:"workers"`
+	Aged    int   `json:"aged"`  // registrations that are past their lifetime when the sweep runs
+	Fresh   int   `json:"fresh"` // registrations that are not
+	AgeS    int64 `json:"age_s"`
+}
+
+type c08Gate struct {
+	mu      sync.Mutex
+	waiting int
+	open    bool
+	ch      chan struct{}
+}
+
+func (g *c08Gate) PhantomIsLive(string, uint16) (bool, error) {
+	g.mu.Lock()
+	if g.open {
+		g.mu.Unlock()
+		return false, nil
+	}
+	g.waiting++
+	ch := g.ch
+	g.mu.Unlock()
+	<-ch
+	return false, nil
+}
+func (g *c08Gate) Waiting() int { g.mu.Lock(); defer g.mu.Unlock(); return g.waiting }
+func (g *c08Gate) Open() {
+	g.mu.Lock()
+	if !g.open {
+		g.open = true
+		close(g.ch)
+	}
+	g.mu.Unlock()
+}
+func (g *c08Gate) PrintAndReset(*log.Logger) {}
+func (g *c08Gate) PrintStats(*log.Logger)    {}
+func (g *c08Gate) Reset()                    {}
+
+func TestVerif_C08_underload(t *testing.T) {
+	rec := vh.NewRec("C08", "underload", "the real HandleRegUpdates with W workers all parked in their liveness probes and the hand-off buffer full (further registrations are being dropped) while N registrations ingested earlier pass their lifetime: one sweep must forget exactly the expired ones; W in {10,20}, N and ages drawn; non-trivial = the pipeline was saturated when the sweep ran and something had to expire; distinct by case")
+	defer rec.Flush()
+	rec.Require("saturated-at-sweep")
+	e := vNewEnv(t, nil, "")
+	run := func(tf vh.Fataler, c c08LoadCase) {
+		e.resetRegistry()
+		rm := *e.rm
+		conf := *e.rm.RegConfig
+		conf.IngestWorkerCount = c.Workers
+		rm.RegConfig = &conf
+		rm.RegistrationStats = newRegistrationStats()
+		rm.Logger = log.New(c08HookWriter{}, "", 0)
+		// 1. registrations ingested while the station was idle
+		quiet := &vTester{}
+		rm.LivenessTester = quiet
+		mk := func(i int) *DecoyRegistration {
+			w := vWrapper(vSecret(3000+i), pb.TransportType_Min, 0, "192.0.2.10:443", true, false, 4, 957, pb.RegistrationSource_API, net.ParseIP("198.51.100.7").To4())
+			reg, err := rm.NewRegistrationC2SWrapper(w, false)
+			if err != nil {
+				tf.Fatalf("harness problem: %v", err)
+			}
+			return reg
+		}
+		var aged, fresh []*DecoyRegistration
+		for i := 0; i < c.Aged; i++ {
+			reg := mk(i)
+			rm.ingestRegistration(reg)
+			aged = append(aged, reg)
+		}
+		e.vShiftAll(time.Duration(c.AgeS) * time.Second)
+		for i := 0; i < c.Fresh; i++ {
+			reg := mk(1000 + i)
+			rm.ingestRegistration(reg)
+			fresh = append(fresh, reg)
+		}
+		// 2. saturate the pipeline
+		gate := &c08Gate{ch: make(chan struct{})}
+		rm.LivenessTester = gate
+		defer gate.Open()
+		in := make(chan interface{})
+		ctx, cancel := context.WithCancel(context.Background())
+		defer cancel()
+		var wg sync.WaitGroup
+		wg.Add(1)
+		returned := make(chan struct{})
+		go func() { rm.HandleRegUpdates(ctx, in, &wg); close(returned) }()
+		msg := func(i int) []byte {
+			w := vWrapper(vSecret(5000+i), pb.TransportType_Min, 0, "192.0.2.10:443", true, false, 4, 957, pb.RegistrationSource_API, net.ParseIP("198.51.100.7").To4())
+			b, _ := proto.Marshal(w)
+			return b
+		}
+		waitFor := func(cond func() bool) bool {
+			for deadline := time.Now().Add(20 * time.Second); time.Now().Before(deadline); time.Sleep(200 * time.Microsecond) {
+				if cond() {
+					return true
+				}
+			}
+			return false
+		}
+		for i := 0; i < c.Workers; i++ {
+			select {
+			case in <- msg(i):
+			case <-time.After(20 * time.Second):
+				tf.Fatalf("harness problem: the distributor did not take message %d", i)
+			}
+			if !waitFor(func() bool { return gate.Waiting() >= i+1 }) {
+				tf.Fatalf("harness problem: worker %d never reached its probe", i)
+			}
+		}
+		buffer := c.Workers / jobBufferDivisor
+		for i := 0; i < buffer+3; i++ {
+			select {
+			case in <- msg(100 + i):
+			case <-time.After(20 * time.Second):
+				tf.Fatalf("harness problem: the distributor did not take excess message %d", i)
+			}
+		}
+		if !waitFor(func() bool { return len(rm.ingestChan) == cap(rm.ingestChan) && atomic.LoadInt64(&rm.RegistrationStats.totalDroppedMessages) >= 1 }) {
+			tf.Fatalf("harness problem: the pipeline did not saturate (buffer %d/%d)", len(rm.ingestChan), cap(rm.ingestChan))
+		}
+		// 3. the sweep
+		rm.RemoveOldRegistrations()
+		expired := time.Duration(c.AgeS)*time.Second > c08Unused
+		classes := []string{fmt.Sprintf("workers:%d", c.Workers)}
+		if expired && c.Aged > 0 {
+			classes = append(classes, "saturated-at-sweep")
+		}
+		rec.Case(expired && c.Aged > 0, vh.Digest(c), c, classes...)
+		for i, reg := range aged {
+			tracked, _, _ := VerifRegState(&rm, reg)
+			if expired && tracked {
+				rec.Violation(tf, "kept-past-lifetime:under-load", c, "registration %d of %d (unused, %v old) is still tracked after a sweep that ran while the ingest pipeline was saturated (%d workers busy, buffer full, registrations being dropped)", i, c.Aged, time.Duration(c.AgeS)*time.Second, c.Workers)
+				return
+			}
+			if !expired && !tracked {
+				rec.Violation(tf, "expired-early", c, "registration %d (%v old) was forgotten before its lifetime ended", i, time.Duration(c.AgeS)*time.Second)
+				return
+			}
+		}
+		for i, reg := range fresh {
+			if tracked, _, _ := VerifRegState(&rm, reg); !tracked {
+				rec.Violation(tf, "expired-early", c, "fresh registration %d was forgotten by the sweep", i)
+				return
+			}
+		}
+		gate.Open()
+		cancel()
+		select {
+		case <-returned:
+		case <-time.After(30 * time.Second):
+			tf.Fatalf("harness problem: HandleRegUpdates did not return")
+		}
+	}
+	if p := vh.ReplayFile(); p != "" {
+		if !strings.Contains(p, "underload") {
+			t.Skip("replay file belongs to another sub-check")
+		}
+		var c c08LoadCase
+		if _, _, err := vh.LoadReplay(p, &c); err != nil {
+			t.Fatal(err)
+		}
+		run(t, c)
+		return
+	}
+	n := vh.Pick(6, 200)
+	_, shards := vh.Shard()
+	left := (n + shards - 1) / shards
+	rapid.Check(t, func(rt *rapid.T) {
+		if left <= 0 {
+			return
+		}
+		left--
+		run(rt, c08LoadCase{
+			Workers: rapid.SampledFrom([]int{10, 20}).Draw(rt, "workers"),
+			Aged:    rapid.IntRange(1, 40).Draw(rt, "aged"),
+			Fresh:   rapid.IntRange(0, 10).Draw(rt, "fresh"),
+			AgeS:    rapid.SampledFrom([]int64{660, 660, 3600, 7 * 3600, 540}).Draw(rt, "age"),
+		})
+	})
 }
